@@ -21,7 +21,7 @@ rune with ASCII constants only, every literal is assembled with `WriteRune` / `s
 into the same class ("none of the constants") as each of its bytes: the rune lexer on `s` therefore is the byte
 lexer of the ASCII models on `norm s`.  The places where the parsers count or inspect RUNES again
 (`Scanner.Read(10)` of strict Phylip, `strings.ToUpper` of the keyword tables) are modelled where they occur,
-with `takeRunes` / `upperRune`.
+with `takeRunes` / `upperLit`.
 -/
 namespace Gv.Model.Fmt.Utf8
 open Gv Gv.Model Gv.Model.Fmt
@@ -118,9 +118,8 @@ def upperRune (r : Nat) : Nat :=
   else if r == 0x17F then 83
   else r
 
-/-- the input holds one of the two runes whose upper case is an ASCII letter: the keyword tables of the Clustal,
-Stockholm and Nexus lexers (`switch strings.ToUpper(lit)`) then see a letter that the byte-wise `upper` of the models
-does not produce; the models of these three formats make no claim for such an input -/
+/-- the input holds one of the two runes whose upper case is an ASCII letter (the keyword tests of the Clustal, Stockholm
+and Nexus lexer models use `upperLit` below, which folds them; kept for the facts of `Proofs/Utf8Norm.lean`) -/
 def hasFoldRune (s : List Byte) : Bool := (runes s).any fun r => r == 0x131 || r == 0x17F
 
 /-- `strings.ToUpper` of a literal, as far as the comparison with ASCII keywords can tell -/
